@@ -14,7 +14,7 @@ RULE = ("E1: BFS over histories of do(ok|raise)/grow(1)/shrink(1|all)/limit chan
         "Two further E2 configurations make the first attempt to start a pool thread fail (the submitter sees the RuntimeError); "
         "the same thread then submits a second task, which must be handled as usual. "
         "non-trivial = distinct canonical states in which a task was backlogged, a shrink was deferred or quit was requested")
-BOUNDS = {"quick": "E1 depth 10, <= 3 tasks, limit in {0,1,2}; E2 preemption bound 2", "thorough": "E1 depth 12, <= 4 tasks; E2 preemption bound 3"}
+BOUNDS = {"quick": "E1 depth 10, <= 3 tasks, limit in {0,1,2}; E2 preemption bound 2", "thorough": "E1 depth 12, <= 4 tasks; E2 preemption bound 3 (2 for the two failing-thread-start configurations)"}
 ASSUMPTIONS = ["E1 serialises coordinator work exactly as an IExclusiveWorker must; which thread performs it is explored in E2",
                "canonical state = limit, quit flag, labelled coordinator queue, per-worker queue/quit flag, per-task accepted/run counts, Team.statistics() and deferred-shrink counter"]
 MIN = {"quick": {"states": 1000000, "nontrivial": 200000, "outcomes": 6}}
